@@ -171,3 +171,16 @@ def replay(failure):
 def rerun(doc):
     import take_range
     return take_range._try([tuple(x) for x in doc["ranges"]])
+
+
+SWEEP_DOC = "open-ended, closed and huge takes compiled for sql.sqlite and executed on SQLite (the one executable dialect here)"
+
+
+def sweep():
+    import take_range
+    out = []
+    for rs in ([(2, None)], [(3, None), (2, None)], [(2, 4)], [(None, 3)], [(5000000000, None)], [(2, 5000000000)], [(None, 5000000000)]):
+        r = take_range._try(list(rs))
+        r.update(obligation="limit_clause.LC3" if rs[0][1] is None else "limit_clause.LC2l", replay_kind="take_ranges", ranges=[list(x) for x in rs])
+        out.append(r)
+    return out
